@@ -826,9 +826,18 @@ class CSSStyleSheet(cssutils.stylesheets.StyleSheet):
                 and self.namespaces[rule.prefix] == rule.namespaceURI
             ):
                 # no doublettes
+                before = list(self._cssRules)
                 self._cssRules.insert(index, rule)
                 if _clean:
-                    self._cleanNamespaces()
+                    try:
+                        self._cleanNamespaces()
+                    except xml.dom.DOMException:
+                        # a declaration which is still in use cannot be cleaned
+                        # away: all or nothing
+                        list.__setitem__(self._cssRules, slice(None), before)
+                        for r in before:
+                            r._parentStyleSheet = self
+                        raise
 
         # @variables
         elif rule.type == rule.VARIABLES_RULE:
